@@ -53,6 +53,53 @@ func hSymFilter(tag string, asked *[]hLabel, answers *[]bool) FilterFunc {
 	}
 }
 
+// hLibTypeFilter builds the input filter from the library's own combinators: a
+// symbolic subset of the types that occur in the world (plus, for hList / []int,
+// the assignable twin), as FilterOr(FilterType(t)...) — symbolically wrapped once
+// more in FilterAnd. Every answer is recorded like hSymFilter's and compared with
+// the documented meaning: the value's type is in the set, or implements an
+// interface type in the set.
+func hLibTypeFilter(tag string, present []int, asked *[]hLabel, answers *[]bool) FilterFunc {
+	allowed := map[int]bool{}
+	var fs []FilterFunc
+	for _, t := range present {
+		if vnBool(tag, t) {
+			allowed[t] = true
+			fs = append(fs, FilterType(hType(t)))
+		}
+	}
+	lib := FilterOr(fs...)
+	if vnBool(tag + "And") {
+		lib = FilterAnd(lib, FilterOr(fs...))
+	}
+	return func(v Value) bool {
+		ans := lib(v)
+		l, ok := hLabelOfValue(v)
+		if !ok {
+			return ans
+		}
+		spec := allowed[l.T] || (allowed[hTI] && l.T == hTP2)
+		vnAssert(ans == spec, "C08.type-set-filter-admits-exactly-its-types-and-their-implementers")
+		if _, known := hAnswer(*asked, *answers, l); !known {
+			*asked = append(*asked, l)
+			*answers = append(*answers, ans)
+		}
+		return ans
+	}
+}
+
+// hAssignTwin: the other type of an (unnamed type, defined type with that underlying
+// type) pair of the pool — mutually assignable yet different types; -1 if none.
+func hAssignTwin(t int) int {
+	switch t {
+	case hTList:
+		return hTSlice
+	case hTSlice:
+		return hTList
+	}
+	return -1
+}
+
 func hAnswer(asked []hLabel, answers []bool, l hLabel) (bool, bool) {
 	for i, a := range asked {
 		if a == l {
@@ -66,17 +113,19 @@ func hAnswer(asked []hLabel, answers []bool, l hLabel) (bool, bool) {
 // permitted inputs. Domain of the property: converters with at most one input,
 // no subtypes, each name denoting a single type.
 //
-//	filt 0: no filters, 1: symbolic input filter, 2: symbolic input and output filters
+//	filt 0: no filters, 1: symbolic input filter, 2: symbolic input and output filters,
+//	     4: input filter = a symbolic set of types built from FilterType/FilterOr/FilterAnd
 func HarnessC08(fam, nT, nV, convCode, form, filt int) {
 	hOrderSites(0)
+	outF := filt == 2 || filt == 3 // an output filter is present (filt 4: library type-set input filter only)
 	w := hTemplate(fam, nT, nV, convCode, form, 0)
 	// the target also produces outputs so that the output filter has subjects, and
 	// (symbolically) declares a final error, which is not an output
 	w.Target.Out = []hLabel{{T: hTP2}, {T: hTP3}}
-	if filt >= 2 && vnBool("namedOutput") {
+	if outF && vnBool("namedOutput") {
 		w.Target.Out[0].Name = "o" // named outputs are outputs too (struct forms only)
 	}
-	if filt >= 2 && vnBool("targetHasErr") {
+	if outF && vnBool("targetHasErr") {
 		w.Target.HasErr = true
 	}
 	// each name denotes a single type
@@ -112,10 +161,24 @@ func HarnessC08(fam, nT, nV, convCode, form, filt int) {
 	var askedIn, askedOut []hLabel
 	var ansIn, ansOut []bool
 	rargs := append([]Arg{}, args...)
-	if filt >= 1 {
+	if filt == 4 {
+		// the input filter is a set of types built from the library's combinators
+		seen := map[int]bool{}
+		var present []int
+		for _, l := range all {
+			for _, t := range []int{l.T, hAssignTwin(l.T)} {
+				if t >= 0 && !seen[t] {
+					seen[t] = true
+					present = append(present, t)
+				}
+			}
+		}
+		rargs = append(rargs, FilterInput(hLibTypeFilter("allow", present, &askedIn, &ansIn)))
+		vnCover("C08.library-type-filter")
+	} else if filt >= 1 {
 		rargs = append(rargs, FilterInput(hSymFilter("fin", &askedIn, &ansIn)))
 	}
-	if filt >= 2 {
+	if outF {
 		rargs = append(rargs, FilterOutput(hSymFilter("fout", &askedOut, &ansOut)))
 	}
 	vnOnDivergence("", "")
@@ -127,14 +190,14 @@ func HarnessC08(fam, nT, nV, convCode, form, filt int) {
 	vnAssert(len(w.Log) == 0, "C08.redefine-executes-nothing")
 	vnCover("C08.redefine-returned")
 	// every output of the target is shown to the output filter
-	if filt >= 2 {
+	if outF {
 		for _, o := range w.Target.Out {
 			_, known := hAnswer(askedOut, ansOut, o)
 			vnAssert(known, "C08.every-output-is-filtered")
 		}
 	}
 	// (3) an output rejected by the output filter => error
-	if filt >= 2 {
+	if outF {
 		for i, l := range askedOut {
 			if !ansOut[i] {
 				_ = l
